@@ -785,13 +785,17 @@ func judgeL2(c *Case, o obs2) []fail {
 		// conservation, seen from the output: every event of the tracked session written exactly once
 		want := map[int64]bool{}
 		var sid string
+		multi := map[string]bool{} // several sessions opened by one pid: which of them gets the login is the correlator's choice
 		for _, it := range c.Items {
 			if it.Kind == "line" && it.Typ == "LOGIN" {
 				sid = it.Ses
+				if c.Mode == modeMulti {
+					multi[it.Ses] = true
+				}
 			}
 		}
 		for _, it := range c.Items {
-			if it.Kind == "line" && !it.Empty && it.Bad == "" && it.Ses == sid && it.Typ != "EOE" {
+			if it.Kind == "line" && !it.Empty && it.Bad == "" && (it.Ses == sid || multi[it.Ses]) && it.Typ != "EOE" {
 				want[eventSec(it.Text)] = true
 			}
 		}
@@ -801,6 +805,8 @@ func judgeL2(c *Case, o obs2) []fail {
 		}
 		for s := range want {
 			switch n := got[s]; {
+			case n == 0 && len(multi) > 0:
+				// not required: the sessions that did not get the login hold their events
 			case n == 0:
 				fs = append(fs, fail{"skip:line-lost", fmt.Sprintf("the event with timestamp %d of session %s was never written", s, sid)})
 			case n > 1:
